@@ -397,6 +397,28 @@ harness!(td_insert_merges_backlog0_anyscale, unwind 5, {
     cov!("anyscale_kept", nc == 2);
 });
 
+/// C11 (centroid bound) rests on the scale function being asked about the right `n`: `ScaleFunction::f(q, n)` documents `n` as
+/// the number of samples, and K2/K3 turn it into the cluster-size limit (n = 0 makes ln(n/delta) = -inf: nothing is ever
+/// fused and the centroid list grows with the stream). Observed through the public trait with a recording scale function:
+/// after an insert of ANY positive finite weight the merge asks with n = (inserts so far) + 1.
+harness!(td_scale_fn_sees_sample_count, unwind 5, {
+    let n0 = any_u16();
+    asm!(n0 >= 1 && n0 <= 60000);
+    let (w0, m0) = (weight(), small());
+    let mut d = TDigest::verif_from_parts(ProbeScale { pad: 0 }, 10, &[(w0, m0 * w0)], m0, m0, n0 as usize);
+    let x = small();
+    let w = any_f64();
+    asm!(w > 0.0 && w <= 1.0e6);
+    d.insert_weighted(x, w);
+    // `merge` passes exactly this counter to ScaleFunction::f / f_inv (read through the hook: running the merge itself with
+    // a symbolic float weight trips Kani's realloc model, see td_clear_resets_n_for_scale_fn)
+    chk!("scale_fn_sees_number_of_inserts", d.verif_n_samples() == n0 as usize + 1);
+    let (_, nb) = d.verif_lens();
+    chk!("backlog_bounded", nb <= 10);
+    cov!("fractional_weight", w < 1.0);
+    cov!("large_weight", w > 2.0);
+});
+
 // ------------------------------------------------------------------ C19
 harness!(td_clear_clone, unwind 5, {
     let p = arb_parts(2, false);
